@@ -36,7 +36,8 @@ func init() {
 		ID: "C12",
 		Modes: []core.ModeSpec{
 			{Name: "random-walk", Weight: 3},
-			{Name: "preempt", Weight: 3},
+			{Name: "preempt", Weight: 2},
+			{Name: "site", Weight: 3},
 			{Name: "pct", Weight: 2},
 		},
 		Run: run,
@@ -65,6 +66,15 @@ func hook(site uint32) {
 		s.Yield(site)
 	} else {
 		simrt.Hook(site)
+	}
+}
+
+//go:norace
+func blockedHook() {
+	if s := cur; s != nil {
+		s.Blocked()
+	} else {
+		simrt.Blocked()
 	}
 }
 
@@ -121,17 +131,29 @@ func opKind(name string) string {
 func run(c *core.Ctx) {
 	t := c.Tape
 	canary := os.Getenv("VERIF_CANARY") == "1"
+	// ---- knobs: extension hooks set (by the main goroutine, before anything runs) or left alone
+	restore, hooksOn := gen.WithHooks(t)
+	defer restore()
+	if hooksOn {
+		c.Probe("extension_hooks_installed")
+	}
 	// ---- shared values (built by the main goroutine before anything runs)
 	k := gen.DrawKnobs(t)
 	k.IDless = false // the shared value and its list members carry ids; single embedded objects may still lack one below
 	g := gen.New(t, k)
+	pos0 := len(t.Recorded())
 	v := g.Top()
+	seg := t.Recorded()[pos0:]
 	var w ap.Item
-	switch t.Draw(4) {
+	switch t.Draw(5) {
 	case 0:
 		w = v // compared with itself
 	case 1:
 		w = gen.New(core.ReplayTape(nil), k).Top() // smallest value of the generator
+	case 2:
+		// a structural twin of v in its own memory (same draws, fresh generator): comparisons go deep
+		w = gen.New(core.ReplayTape(seg), k).Top()
+		c.Probe("w_is_structural_twin_of_v")
 	default:
 		w = gen.New(t, k).Top()
 	}
@@ -180,6 +202,9 @@ func run(c *core.Ctx) {
 		}
 		c.Logf("task %d: %s", ti, strings.Join(names, " ; "))
 		c.Rec.Ops += len(p.ops)
+		for _, o := range p.ops {
+			c.Count("operations_driven", opKind(o.name))
+		}
 	}
 
 	// ---- O2 baseline, before anything touches the values
@@ -196,10 +221,16 @@ func run(c *core.Ctx) {
 	// ---- O3 reference: the sequential pass, bracketed operation by operation
 	cur = nil
 	verifsim.Hook = hook
+	verifsim.BlockedHook = blockedHook
+	siteTraces := make([][]uint32, nTasks)
 	seqPass := func(phase string, perOp bool) ([][]string, []int64) {
 		res := make([][]string, nTasks)
 		steps := make([]int64, nTasks)
 		for ti, p := range plans {
+			if perOp {
+				siteTraces[ti] = siteTraces[ti][:0]
+				simrt.Trace = &siteTraces[ti]
+			}
 			res[ti] = make([]string, len(p.ops))
 			for oi, o := range p.ops {
 				s0 := simrt.Steps
@@ -217,6 +248,7 @@ func run(c *core.Ctx) {
 				}
 			}
 		}
+		simrt.Trace = nil
 		if !perOp && gen.Fingerprint(v, w) != fpBase {
 			reportWrite(phase, "(some operation of this pass)")
 		}
@@ -267,6 +299,39 @@ func run(c *core.Ctx) {
 			if taskSteps[ti] > 0 {
 				cfg.PreemptAt[ti] = append(cfg.PreemptAt[ti], 1+int64(t.Draw(int(min64(taskSteps[ti], 1<<30)))))
 			}
+		}
+		for ti := range cfg.PreemptAt {
+			sortInt64(cfg.PreemptAt[ti])
+		}
+	case c.Mode == "site":
+		// preempt *inside each helper*: the preemption point is drawn uniformly over the distinct
+		// sites a task visits in the dry run (not over its steps, which favours hot loops), then
+		// over the occurrences of that site
+		cfg.Policy = sched.PolicyPreempt
+		cfg.PreemptAt = make([][]int64, nTasks)
+		d := 1 + t.Draw(3)
+		for i := 0; i < d; i++ {
+			ti := t.Draw(nTasks)
+			tr := siteTraces[ti]
+			if len(tr) == 0 {
+				continue
+			}
+			first := map[uint32]bool{}
+			var distinct []uint32
+			for _, sID := range tr {
+				if !first[sID] {
+					first[sID] = true
+					distinct = append(distinct, sID)
+				}
+			}
+			target := distinct[t.Draw(len(distinct))]
+			var occ []int64
+			for idx, sID := range tr {
+				if sID == target {
+					occ = append(occ, int64(idx)+1)
+				}
+			}
+			cfg.PreemptAt[ti] = append(cfg.PreemptAt[ti], occ[t.Draw(len(occ))])
 		}
 		for ti := range cfg.PreemptAt {
 			sortInt64(cfg.PreemptAt[ti])
@@ -344,6 +409,13 @@ func run(c *core.Ctx) {
 				o := plans[ti].ops[oi]
 				c.Fail("sequential", "C12/second-call/"+opKind(o.name), "%s gives another result after the concurrent phase: %q then %q", o.name, clip(ref[ti][oi]), clip(ref3[ti][oi]))
 			}
+		}
+	}
+	for _, n := range e.notDriven {
+		if strings.HasPrefix(n, "pkg.") {
+			c.Count("catalogue_entries_not_synthesisable", n)
+		} else {
+			c.Count("catalogue_entries_not_synthesisable", n[strings.LastIndex(n, ".")+1:]+" (method)")
 		}
 	}
 	if notDriven > 0 {
@@ -435,6 +507,12 @@ func finish(c *core.Ctx, s *sched.S) {
 	}
 	c.Rec.LogHash = core.HashStr(lb.String())
 	c.Rec.Probes = core.AddCounts(c.Rec.Probes, map[string]int{"switch_inside_operation": int(s.SwitchInsideOp)})
+	if s.BlockedPolls > 0 {
+		c.Rec.Probes["task_blocked_on_lock_handed_over"] += int(s.BlockedPolls)
+	}
+	for _, pr := range s.Pairs {
+		c.Rec.ExtraHashes = append(c.Rec.ExtraHashes, uint64(pr[0])<<32|uint64(pr[1]))
+	}
 	if c.Verbose {
 		n := len(s.Switches)
 		if n > 12 {
